@@ -1,5 +1,6 @@
 #!/usr/bin/env python3
 
+import numbers
 import numpy as np
 from scipy.stats import norm
 from ffpack.rpm import metropolisHastings, nataf
@@ -104,7 +105,7 @@ def subsetSimulation( dim, g, distObjs, corrMat, numSamples,
     
     targetPdf = [ tpdf ] * dim
     
-    if isinstance( randomSeed, int ):
+    if isinstance( randomSeed, numbers.Integral ):
         np.random.seed( randomSeed )
     
     def pcs( x ):
